@@ -33,8 +33,8 @@ POOL = ['Absorption', 'CIA', 'Rayleigh', 'SimpleClouds', 'FlatMie', 'LeeMie', 'H
 @st.composite
 def _case(draw):
     probe = draw(st.sampled_from(['after-model', 'fresh', 'subgrid', 'param-change', 'contrib-first']))
-    k = draw(st.integers(1, 5))
-    order = draw(st.permutations(POOL))[:k]
+    k = draw(S.ints(1, 5))
+    order = draw(S.perm(POOL))[:k]
     if 'Absorption' not in order and draw(st.booleans()):
         order = ['Absorption'] + list(order)
     zero = draw(st.sampled_from([False, False, True]))
@@ -47,7 +47,7 @@ def _case(draw):
     w['extras'] = ['CIA', 'SimpleClouds']
     # H- needs atomic hydrogen and free electrons in the mixture
     w['hminus'] = {'H': draw(st.floats(-4.0, -1.5)), 'e': draw(st.floats(-9.0, -4.0))} if 'HydrogenIon' in order else None
-    return {'world': w, 'order': list(order), 'order2': draw(st.permutations(list(order))), 'zero': zero,
+    return {'world': w, 'order': list(order), 'order2': draw(S.perm(list(order))), 'zero': zero,
             'mie': mie, 'probe': probe, 'new_path': draw(st.booleans())}
 
 
